@@ -5,7 +5,6 @@ import (
 	"math/big"
 
 	"github.com/bronlabs/bron-crypto/pkg/base/nt/numct"
-	"github.com/bronlabs/bron-crypto/pkg/base/nt/num"
 )
 
 func try(name string, f func()) {
@@ -18,39 +17,27 @@ func try(name string, f func()) {
 }
 
 func main() {
-	try("divvartime small/large", func() {
-		x := numct.NewNat(5)
-		y := numct.NewNatFromBig(new(big.Int).Lsh(big.NewInt(1), 200), 201)
-		var q, r numct.Nat
-		ok := q.EuclideanDivVarTime(&r, x, y)
-		fmt.Println("5 / 2^200:", ok, q.Big(), r.Big())
+	try("add reused receiver", func() {
+		z := numct.NewIntFromBig(new(big.Int).Lsh(big.NewInt(1), 100), 101)
+		x := numct.NewIntFromBig(big.NewInt(1), 64)
+		y := numct.NewIntFromBig(big.NewInt(1), 64)
+		z.Add(x, y)
+		fmt.Println("z(previously 2^100).Add(1,1) =", z.Big().Text(16))
+		z2 := numct.NewIntFromBig(new(big.Int).Lsh(big.NewInt(1), 100), 101)
+		z2.Add(z2, x)
+		fmt.Println("z=2^100; z.Add(z,1) =", z2.Big().Text(16))
+		y3 := numct.NewIntFromBig(new(big.Int).Lsh(big.NewInt(0x21), 64), 71)
+		y3.Add(x, y3)
+		fmt.Println("y=0x21<<64; y.Add(1,y) =", y3.Big().Text(16))
 	})
-	try("num.Nat small/large", func() {
-		x := num.N().FromUint64(5)
-		y, _ := num.N().FromBig(new(big.Int).Lsh(big.NewInt(1), 200))
-		q, r, err := x.EuclideanDivVarTime(y)
-		fmt.Println("num 5 / 2^200:", q, r, err)
-	})
-	try("lcm", func() {
-		x := numct.NewNat(6)
-		y := numct.NewNatFromBig(new(big.Int).Lsh(big.NewInt(1), 200), 201)
-		var o numct.Nat
-		numct.LCM(&o, x, y)
-		fmt.Println("lcm", o.Big())
-	})
-	try("lsh", func() {
-		x := numct.NewNatFromBig(big.NewInt(0x2f7549), 23)
-		var o numct.Nat
-		o.LshCap(x, 128, 129)
-		fmt.Println("lsh", o.Big().Text(16), o.AnnouncedLen(), o.TrueLen())
-		o.LshCap(x, 3, 10)
-		fmt.Println("lsh", o.Big().Text(16), o.AnnouncedLen(), o.TrueLen())
-	})
-	try("add mutate", func() {
-		x := numct.NewNatFromBig(big.NewInt(7), 64)
-		y := numct.NewNatFromBig(big.NewInt(0x20408), 63)
-		var o numct.Nat
-		o.AddCap(x, y, 12)
-		fmt.Println("add", o.Big().Text(16), "y now", y.Big().Text(16))
+	try("neg zero", func() {
+		a := numct.NewInt(-3)
+		b := numct.NewInt(0)
+		var p numct.Int
+		p.Mul(a, b)
+		lt, eq, gt := p.Compare(numct.IntZero())
+		fmt.Println("(-3*0): IsNegative", p.IsNegative(), "compare with 0 lt,eq,gt =", lt, eq, gt, "IsZero", p.IsZero(), "bytes", p.Bytes())
+		var s numct.Int
+		fmt.Println("sqrt(-3*0) ok =", s.Sqrt(&p))
 	})
 }
